@@ -51,8 +51,18 @@ class Analysis:
         self.init_probe = it
         return out
 
-    def run(self, entry, mode="th", inline_api=True, overrides=None, tagk=None, assume=None) -> Interp:
+    def run(self, entry, mode="th", inline_api=True, overrides=None, tagk=None, assume=None, relative_root=False) -> Interp:
         key = (entry, mode, inline_api, tagk)
+        if key not in self._runs:
+            from . import terms as _t
+            _t.RELATIVE_ROOT[0] = bool(relative_root)
+            try:
+                return self._run(key, entry, mode, inline_api, overrides, assume)
+            finally:
+                _t.RELATIVE_ROOT[0] = False
+        return self._runs[key]
+
+    def _run(self, key, entry, mode, inline_api, overrides, assume):
         if key not in self._runs:
             it = Interp(self.p, entry, mode, inline_api=inline_api, path_attrs=self.path_attrs, sync=self.sync)
             it.alias = dict(self.alias)
